@@ -185,9 +185,13 @@ class OPA(BaseModelSingleSet):
             solver="full",
         )
         decomposer.fit(C0, dims=("feature1", "feature2"))
-        C0_sqrt = decomposer.U_ * np.sqrt(decomposer.s_)
-        # -> C0_sqrt (feature1 x mode)
-        C0_sqrt_inv = self._compute_matrix_inverse(C0_sqrt, dims=("feature1", "mode"))
+        # Symmetric inverse square root C0^(-1/2) = U S^(-1/2) U^T. The contractions below rely on its
+        # symmetry (the inverse of U S^(1/2) is symmetric only if U is the identity, which the SVD
+        # does not return when two principal components have equal variance)
+        U0 = decomposer.U_
+        C0_sqrt_inv = xr.dot(
+            U0 / np.sqrt(decomposer.s_), U0.rename({"feature1": "temp"}), dims="mode"
+        ).rename({"feature1": "mode", "temp": "feature1"})
         # -> C0_sqrt_inv (mode x feature1)
         target = 0.5 * xr.dot(C0_sqrt_inv, M_summed, dims="feature1")
         # -> target (mode x feature2)
